@@ -45,6 +45,10 @@ pub struct LayoutCase {
     /// realise with the real kernel (PROT_NONE reservation + holes) instead of the model
     pub real_kernel: bool,
     pub boolean: bool,
+    /// the whole case runs from tear-down code executed while the thread unwinds from a failed
+    /// test body (`std::thread::panicking()` is true throughout)
+    #[serde(default)]
+    pub in_teardown: bool,
 }
 
 #[derive(Serialize, Deserialize, Clone, Debug, Default)]
@@ -124,6 +128,14 @@ fn account(evs: &[ip::Ev], live: &mut BTreeMap<u64, u64>, anomalies: &mut Vec<St
 }
 
 pub fn execute(c: &LayoutCase) -> LayoutObs {
+    if c.in_teardown {
+        crate::worker::while_unwinding(|| execute_inner(c))
+    } else {
+        execute_inner(c)
+    }
+}
+
+fn execute_inner(c: &LayoutCase) -> LayoutObs {
     let mut o = LayoutObs::default();
     ip::plan_reset();
     ip::log_clear();
@@ -283,7 +295,11 @@ pub fn strategy() -> impl Strategy<Value = LayoutCase> {
         5 => one.prop_map(Layout::OneFree),
         2 => prop::collection::vec(-WPAGES - 2..=WPAGES + 2, 1..24).prop_map(Layout::Some),
     ];
-    (prop_oneof![3 => Just(0u8), 1 => Just(1u8), 2 => Just(4u8), 1 => Just(2u8)], any::<u64>(), off, layout, 0u8..3, any::<u8>(), prop::bool::weighted(0.04), prop::bool::weighted(0.2)).prop_map(|(class, page, off, layout, fallback, near_index, real_kernel, boolean)| LayoutCase { class, page, off, layout, fallback, near_index, real_kernel, boolean })
+    (prop_oneof![3 => Just(0u8), 1 => Just(1u8), 2 => Just(4u8), 1 => Just(2u8)], any::<u64>(), off, layout, 0u8..3, any::<u8>(), prop::bool::weighted(0.04), prop::bool::weighted(0.2)).prop_map(|(class, page, off, layout, fallback, near_index, real_kernel, boolean)| LayoutCase { class, page, off, layout, fallback, near_index, real_kernel, boolean, in_teardown: false })
+    .prop_flat_map(|c| (Just(c), prop::bool::weighted(0.07)).prop_map(|(mut c, t)| {
+        c.in_teardown = t;
+        c
+    }))
 }
 
 pub fn judge(rec: &mut Recorder, c: &LayoutCase, ex: Exec, _hello: &Value) -> Result<(), String> {
@@ -317,6 +333,9 @@ pub fn judge(rec: &mut Recorder, c: &LayoutCase, ex: Exec, _hello: &Value) -> Re
     if o.status == "discarded" {
         rec.count("discarded", 1);
         return Ok(());
+    }
+    if c.in_teardown {
+        rec.class("case-inside-tear-down-while-unwinding");
     }
     rec.eval(|| json!({"case": c, "target": format!("{:#x}", o.target), "status": o.status, "mmap_calls": o.mmap_calls, "granted": o.mmap_granted, "given_back": o.munmaps, "trampoline": o.decoded_tramp.map(|t| format!("{t:#x}")), "first_hints": o.first_hints}));
     let lname = match &c.layout {
